@@ -179,6 +179,6 @@ fn check(c: &TxList, obs: &mut Obs) -> Verdict {
 pub fn def() -> PropDef {
     let mut d = PropDef::new("C11", "lists of 0-8 valid transactions built through the model's public types (every action; decimals with scale 0-28 and up to 96-bit mantissas, trailing zeros, 1e-28; CAD/USD/other currencies with and without separate commission currency; affiliate spellings incl. registered and the all-affiliates marker on splits; declared SfL with/without '!' and zero; split ratios integer / decimal / whole-number-only; memos with commas, quotes, CR/LF, tabs, non-ASCII, padding): write -> read -> compare field by field (decimals numerically, memo up to surrounding whitespace, default-affiliate split may return as all-affiliates split when no other affiliate is named) -> write again and compare bytes with the first write of the memo-trimmed list. Non-trivial = list containing a value with >= 12 significant digits, a memo needing CSV quoting, a split, or a non-default affiliate. Distinct = distinct case content.");
     d.assumptions = vec!["securities have no surrounding whitespace (the reader trims cells)", "split-ratio terms stay below 1e9 with at most 6 decimals (a 28-digit whole-number term written with one decimal place no longer fits a Decimal; outside any practical range)", "the reader-first direction (arbitrary bytes) is covered by the fuzz target csv_roundtrip"];
-    d.subs.push(Box::new(Sub::<TxList> { name: "roundtrip", cases_quick: 60_000, cases_thorough: 3_000_000, strategy: Box::new(strategy), to_json: |c| json::object! { txs: c.txs.iter().map(|t| t.to_json()).collect::<Vec<_>>() }, from_json: |v| { let t: Option<Vec<TxSpec>> = v["txs"].members().map(TxSpec::from_json).collect(); Some(TxList { txs: t? }) }, check }));
+    d.subs.push(Box::new(Sub::<TxList> { name: "roundtrip", cases_quick: 240_000, cases_thorough: 3_000_000, strategy: Box::new(strategy), to_json: |c| json::object! { txs: c.txs.iter().map(|t| t.to_json()).collect::<Vec<_>>() }, from_json: |v| { let t: Option<Vec<TxSpec>> = v["txs"].members().map(TxSpec::from_json).collect(); Some(TxList { txs: t? }) }, check }));
     d
 }
